@@ -269,14 +269,26 @@ def run(ck: Check) -> None:
         bad_y = []
         count = [0]
 
+        pending = []
+
+        def other_thread():
+            out = impl._run(yop, yargs)
+            if out != want_y:
+                bad_y.append(out)
+
         def local_tracer(frame, event, arg):
             if event == "line" and count[0] < 400:
+                if pending and pending[-1].is_alive():
+                    return local_tracer      # the interfering call is blocked on a lock this call holds: as after a real thread switch, this one goes on
                 count[0] += 1
                 sys.settrace(None)
                 try:
-                    out = impl._run(yop, yargs)
-                    if out != want_y:
-                        bad_y.append(out)
+                    # the interfering call runs in a thread of its own, to completion — or until it blocks on a lock held here, in which case the
+                    # scheduler would come back to this thread, and so do we
+                    th = threading.Thread(target=other_thread, daemon=True)
+                    pending.append(th)
+                    th.start()
+                    th.join(0.25)
                 finally:
                     sys.settrace(global_tracer)
             return local_tracer
@@ -292,6 +304,8 @@ def run(ck: Check) -> None:
                 got_x = impl._run(xop, xargs)
             finally:
                 sys.settrace(None)
+        for th in pending[-3:]:
+            th.join(5)
         injected += count[0]
         ck.evaluations += 1
         ck.oracle_checks += 1
